@@ -31,7 +31,11 @@ type tcase struct {
 func (c *tcase) line() string {
 	parts := make([]string, 0, len(c.args)+1)
 	parts = append(parts, c.op.model)
-	for _, a := range c.args {
+	args := c.args
+	if c.op.lineArgs != nil {
+		args = c.op.lineArgs(c)
+	}
+	for _, a := range args {
 		parts = append(parts, vh.ZHex(a))
 	}
 	return strings.Join(parts, " ")
@@ -81,6 +85,8 @@ type opDef struct {
 	pred func(c *tcase, impl string) string
 	// key for mismatches of this op (default "arith-"+name)
 	key func(c *tcase) string
+	// lineArgs, when set, selects/derives the arguments sent to the model entry
+	lineArgs func(c *tcase) []*big.Int
 	// trivial says whether the case is rejected at the first guard
 	trivial func(c *tcase, impl string) bool
 }
@@ -209,7 +215,7 @@ func evaluate(a vh.Args, res *vh.Result, cases []*tcase) {
 			propDetail = c.op.pred(c, o.impl)
 		} else if c.op.orac != nil {
 			if want := c.op.orac(c); want != "" && want != o.impl {
-				propDetail = fmt.Sprintf("implementation %s, math/big %s", trunc(o.impl), trunc(want))
+				propDetail = diffDetail("implementation", o.impl, "math/big", want)
 			}
 		}
 		if o.mutated != "" {
@@ -222,7 +228,7 @@ func evaluate(a vh.Args, res *vh.Result, cases []*tcase) {
 		if c.op.rel != nil {
 			corr = c.op.rel(c, o.impl, model[i])
 		} else if o.impl != model[i] {
-			corr = fmt.Sprintf("implementation %s, model %s", trunc(o.impl), trunc(model[i]))
+			corr = diffDetail("implementation", o.impl, "model", model[i])
 		}
 		switch {
 		case corr != "":
@@ -237,6 +243,19 @@ func evaluate(a vh.Args, res *vh.Result, cases []*tcase) {
 				PropFail: true, What: "mathematical value of " + c.op.name + " (math/big oracle)"})
 		}
 	}
+}
+
+// diffDetail describes the first differing component of two canonical results.
+func diffDetail(na, a, nb, b string) string {
+	la, lb := strings.Split(strings.TrimPrefix(a, "ok:"), ","), strings.Split(strings.TrimPrefix(b, "ok:"), ",")
+	if strings.HasPrefix(a, "ok:") && strings.HasPrefix(b, "ok:") && len(la) == len(lb) && len(la) > 1 {
+		for i := range la {
+			if la[i] != lb[i] {
+				return fmt.Sprintf("output %d of %d: %s %s, %s %s", i, len(la), na, trunc(la[i]), nb, trunc(lb[i]))
+			}
+		}
+	}
+	return fmt.Sprintf("%s %s, %s %s", na, trunc(a), nb, trunc(b))
 }
 
 func trunc(s string) string {
